@@ -832,6 +832,11 @@ class BufferRun:
             # only decidable if no admissible start can hide below the grid resolution
             allp = [self.rows[x]["prio"] for x in self.tasks[st].order[-self.N:]]
             if min(allp) / (sum(allp)) * G >= 4:
+                if h == self.H:
+                    for x in self._certain_starts(st):
+                        if x not in counts:
+                            self.V("law", f"start {x} is admissible by the documented enabling rule and has priority {self.rows[x]['prio']} (share >= {min(allp) / sum(allp):.3g}) but is never drawn by {G} equidistant variates (drawn starts {sorted(counts)})")
+                            return counts
                 for s in counts:
                     exp = G * p[s] / S
                     if abs(counts[s] - exp) > 2 + 1e-9 * G:
